@@ -96,7 +96,7 @@ def macIsGroup (a : Bytes) : Bool := (a.headD 0).toNat % 2 == 1
 /-- limited broadcast or class D -/
 def ip4IsGroup (a : Bytes) : Bool := a == [255, 255, 255, 255] || (a.headD 0).toNat / 16 == 14
 
-def ip6IsMulticast (a : Bytes) : Bool := a.headD 0 == 255
+def ip6IsMulticast (a : Bytes) : Bool := a.getD 0 0 == 255
 
 def vid (tci : Bytes) : Nat := ((tci.getD 0 0).toNat % 16) * 256 + (tci.getD 1 0).toNat
 
